@@ -979,9 +979,9 @@ PROBE_PARAMS = dict(c_fcr=0.95, c_f1=0.7, c_f2=1000.0, c_f3=10.0, c_f4=50000.0, 
                     h_p_des=15000.0, c_tdes_app=0.15, c_tdes_ld=0.35)
 
 
-def probe(ctx: core.Ctx, engine: str) -> bool:
-    """True if the engine model can be evaluated with the library's own
-    parameter object.  A failure is reported as a finding."""
+def probe(ctx: core.Ctx, engine: str):
+    """Evaluate the engine model once with the library's own parameter object.
+    Returns (case, None) if that works, else (case, exception)."""
     import numpy as np
     from AEIC.BADA.aircraft_parameters import Bada3AircraftParameters
     from AEIC.BADA.model import Bada3FuelBurnModel
@@ -992,25 +992,25 @@ def probe(ctx: core.Ctx, engine: str) -> bool:
     ap = Bada3AircraftParameters()
     ap.assign_parameters_fromdict(dict(PROBE_PARAMS, engine_type=engine))
     model = Bada3FuelBurnModel(ap)
-    one = np.array([5000.0, 6000.0])
+    alt, tas, temp = np.array([5000.0, 6000.0]), np.array([150.0, 160.0]), np.array([255.65, 249.15])
     try:
-        model.engine_model.calculate_max_climb_thrust(one, np.array([150.0, 160.0]), np.array([255.65, 249.15]))
-        model.engine_model.calculate_descent_thrust_high(one, np.array([150.0, 160.0]), np.array([255.65, 249.15]))
+        model.engine_model.calculate_max_climb_thrust(alt, tas, temp)
+        model.engine_model.calculate_descent_thrust_high(alt, tas, temp)
         if engine == 'Jet':
-            model.engine_model.calculate_cruise_fuel_flow(np.array([5.0e4, 5.0e4]), np.array([150.0, 160.0]))
+            model.engine_model.calculate_cruise_fuel_flow(np.array([5.0e4, 5.0e4]), tas)
     except core.PASS_THROUGH:
         raise
-    except TypeError as e:
-        if 'not subscriptable' not in str(e):
-            ctx.fail_exc('params.access', e, engine, case)
-            return False
+    except Exception as e:  # noqa: BLE001 - whatever the code under test raises is the finding
+        ctx.label('probe_failed:' + engine)
         ctx.mark_nontrivial('probe:' + engine)
-        ctx.fail_exc('params.access', e, 'params_not_subscriptable', case)
-        return False
-    except Exception as e:  # noqa: BLE001
-        ctx.fail_exc('params.access', e, engine, case)
-        return False
-    return True
+        ctx.sample({'case': case, 'params': dict(PROBE_PARAMS, engine_type=engine), 'raised': repr(e)})
+        return case, e
+    return case, None
+
+
+def report_probe(ctx: core.Ctx, case, exc):
+    subscript = isinstance(exc, TypeError) and 'not subscriptable' in str(exc)
+    ctx.fail_exc('params.access', exc, 'params_not_subscriptable' if subscript else case['probe'], case)
 
 
 def run(ctx: core.Ctx):
@@ -1037,17 +1037,15 @@ def run(ctx: core.Ctx):
         'piston C_f1 is in kg/min as in OPF files (BADA 3.9-7), so piston fuel flow in kg/s is C_f1/60',
     ]
     self_test()
-    ok = True
-    for engine in ENGINES:
+    failed = [(case, exc) for case, exc in (probe(ctx, engine) for engine in ENGINES) if exc is not None]
+    if failed:
+        # one root cause for every engine type: report it once, then stop (nothing behind it is reachable)
         try:
-            ok = probe(ctx, engine) and ok
+            report_probe(ctx, *failed[0])
         except core.Violation:
             ctx.record_violation()
-            ok = False
-            break  # same root cause for every engine type: one report is enough
-    if not ok:
-        ctx.extra['blocked'] = ('engine models cannot be evaluated with the library parameter object; '
-                                'nothing behind clause params.access was reachable')
+        ctx.extra['blocked'] = ('engine models cannot be evaluated with the library parameter object for '
+                                + ', '.join(c['probe'] for c, _ in failed) + '; nothing behind clause params.access was reachable')
         return
     n = ctx.n(3000, 30000)
     core.run_given(ctx, case_st(), lambda case: body(ctx, case), max_examples=n)
@@ -1056,6 +1054,8 @@ def run(ctx: core.Ctx):
 def replay(ctx: core.Ctx, case):
     self_test()
     if 'probe' in case:
-        probe(ctx, case['probe'])
+        case, exc = probe(ctx, case['probe'])
+        if exc is not None:
+            report_probe(ctx, case, exc)
         return
     body(ctx, case)
